@@ -41,9 +41,12 @@ for sid in ids:
     if sid[-1] in "cdefghij" and "first_pass_caught" not in meta:
         # (rounds after the first: what the checks did before they were strengthened against this change)
         meta["first_pass_caught"] = prev_caught if prev_caught is not None else meta["caught"]
-    json.dump(meta, open(meta_p, "w"), indent=1)
+    if not os.environ.get("SEEDTABLE_DRY"):
+        json.dump(meta, open(meta_p, "w"), indent=1)
     rows.append(meta)
     print(sid, "caught" if meta["caught"] else "MISSED", meta["confirmed"], flush=True)
+if os.environ.get("SEEDTABLE_DRY"):
+    sys.exit(0)
 allmeta = []
 for sid in sorted(d for d in os.listdir(f"{V}/seeded") if os.path.isdir(f"{V}/seeded/{d}")):
     p = f"{V}/seeded/{sid}/meta.json"
